@@ -2,7 +2,8 @@
 import re
 
 from .. import lib, mir
-from ..mir import render, strip_generics
+from .. import lib_proto as P
+from ..mir import strip_generics
 
 EXPLANATION = ("forward_data(src, dst): the bytes written to dst are exactly the slice returned by src.poll_fill_buf; src.consume(i) is called exactly "
                "once, only on the path where dst.poll_write returned Ready(Ok(i)) with i != 0, with that very i, and the function then returns "
@@ -17,12 +18,13 @@ ASSUMPTIONS = ["BufReader / AsyncBufRead contract: consume(n) drops exactly the 
                "the overshoot bound (one read buffer per direction) depends on BufReader's capacity and is not decided",
                "chunking / readiness schedules are not enumerated", "futures_timer::Delay fires after its duration"]
 RL = "libp2p_relay"
-FILL = "<std::task::Poll as std::ops::Try>::branch(<&mut T as futures::AsyncBufRead>::poll_fill_buf(std::pin::Pin::new(src), cx))@Continue.0@Ready.0"
+CF = r"copy_future::CopyFuture$"
 
 SELFTEST = [
     {"mutation": "forward_data: consume(length of a re-polled buffer) instead of consume(i)", "caught_by": "forward/consumed = written"},
     {"mutation": "forward_data: `if i == 0` check removed", "caught_by": "forward/consume only after a successful non-empty write"},
     {"mutation": "poll: dst direction does not add to bytes_sent", "caught_by": "poll/dst->src: bytes_sent += forwarded"},
+    {"mutation": "seeded/C49: accounting moved into `(Progressed(i), _) | (_, Progressed(i)) => bytes_sent += i` (one direction dropped when both progress)", "caught_by": "poll/src->dst: bytes_sent += forwarded, poll/dst->src: bytes_sent += forwarded"},
     {"mutation": "poll: limit test hoisted out of the loop (tested once per poll)", "caught_by": "poll/limit re-tested before forwarding more"},
     {"mutation": "poll: `this.max_circuit_bytes > this.bytes_sent`", "caught_by": "poll/limit re-tested before forwarding more (+ floor:limit test)"},
     {"mutation": "poll: second call forwards src->dst again", "caught_by": "poll/both directions are connected"},
@@ -31,21 +33,29 @@ SELFTEST = [
 ]
 
 
-def ret_exprs(b):
-    return [(mir.Site(b, d[1], d[2]), b.site_expr(mir.Site(b, d[1], d[2]))) for d in b.defs.get(0, [])]
-
-
 def check(ctx):
-    mir.RENDER_MAX[0] = 30
-    try:
-        _check(ctx, ctx.prog)
-    finally:
-        mir.RENDER_MAX[0] = 14
+    _check(ctx, ctx.prog)
 
 
 def _check(ctx, prog):
-    # ================================================================= forward_data
+    # ---- roles of CopyFuture's private fields, from its constructor new(src = $1, dst = $2, max_circuit_duration = $3, max_circuit_bytes = $4)
+    n = ctx.body(RL, r"^libp2p_relay::copy_future::CopyFuture::new$")
+    NN = P.Norm(n)
+    ag = [x for _, e in P.ret_exprs(n) for x in mir.walk(e) if x[0] == "agg" and x[1] == "adt" and strip_generics(x[2]) == "libp2p_relay::copy_future::CopyFuture"]
+    if len(ag) != 1:
+        raise mir.RuleError("CopyFuture::new: %d constructions" % len(ag))
+    F_SRC, F_DST, F_TIMER, F_MAX = (P.field_from_arg(n, ag[0], i) for i in (1, 2, 3, 4))
+    rest = [f for f, _ in ag[0][4] if f not in (F_SRC, F_DST, F_TIMER, F_MAX)]
+    if len(rest) != 1:
+        raise mir.RuleError("CopyFuture: byte counter field not identified: %s" % rest)
+    F_SENT = rest[0]
+    vals = {f: NN.r(x) for f, x in ag[0][4]}
+    ok = vals[F_TIMER] == "futures_timer::Delay::new($3)" and vals[F_MAX] == "$4" and vals[F_SENT] in ("<u64 as std::default::Default>::default()", "0") and \
+        vals[F_SRC] == "futures::io::BufReader::new($1)" and vals[F_DST] == "futures::io::BufReader::new($2)"
+    ctx.ob("config", "CopyFuture::new arms the timer with max_circuit_duration and starts at 0 bytes", ok, "%s:%d" % (n.file, n.line), str(vals))
+    # ================================================================= forward_data(src = $1, dst = $2, cx = $3)
     f = ctx.body(RL, r"^libp2p_relay::copy_future::forward_data$")
+    F = P.Norm(f)
     frets = f.return_blocks()
     fill = f.call_sites(r"AsyncBufRead>::poll_fill_buf$|AsyncBufRead::poll_fill_buf$")
     wr = f.call_sites(r"AsyncWrite>::poll_write$|AsyncWrite::poll_write$")
@@ -53,26 +63,30 @@ def _check(ctx, prog):
     ctx.floor("forward", "poll_fill_buf", fill, 1, exact=True)
     ctx.floor("forward", "poll_write", wr, 1, exact=True)
     ctx.floor("forward", "consume", cons, 1, exact=True)
-    for s in fill:
-        a = f.site_expr(s)[2][0]
-        ctx.ob("forward", "data is read from the source", render(a) == "std::pin::Pin::new(src)" and a[2][0][0] == "arg" and a[2][0][1] == 1, s.loc(), render(a))
+    FILLC = F.site(fill[0]) if fill else "?"
+    ctx.ob("forward", "data is read from the source", FILLC.endswith("poll_fill_buf(std::pin::Pin::new($1), $3)"), fill[0].loc() if fill else "", FILLC)
+    BUF = FILLC + "@+@Ready"
     W = None
     for s in wr:
         e = f.site_expr(s)
-        ctx.ob("forward", "the bytes written are exactly the source's buffered bytes, to the destination", render(e[2][0]) == "std::pin::Pin::new(dst)" and e[2][0][2][0][0] == "arg" and e[2][0][2][0][1] == 2 and
-               render(e[2][2]) == FILL, s.loc(), render(e)[:200])
-        W = "<std::result::Result as std::ops::Try>::branch(%s@Ready.0)@Continue.0" % render(e)
+        ctx.ob("forward", "the bytes written are exactly the source's buffered bytes, to the destination", F.r(e[2][0]) == "std::pin::Pin::new($2)" and F.r(e[2][2]) == BUF, s.loc(), F.r(e)[:200])
+        W = F.r(e) + "@+@Ready"
+
+    def nonzero(op, a, b):
+        return op == "Ne" and {F.r(a), F.r(b)} == {"0", W}
+
+    def zero(op, a, b):
+        return op == "Eq" and {F.r(a), F.r(b)} == {"0", W}
+    e_nz, e_z = P.rel_edges(f, nonzero), P.rel_edges(f, zero)
     for s in cons:
         e = f.site_expr(s)
-        ctx.ob("forward", "consumed = written", W is not None and render(e[2][1]) == W and render(e[2][0]) == "std::pin::Pin::new(src)", s.loc(), "consume(%s)" % render(e[2][1])[-80:])
-        ok = bool(wr) and ctx.guarded("forward", "consume only after a successful non-empty write", s,
-                                      lambda c, r, l: W is not None and ((l == "false" and r == "Eq(%s, 0)" % W) or (l == "true" and r == "Ne(%s, 0)" % W)), "i != 0 for i = the poll_write result")
-    zero = f.guard_edges(lambda c, r, l: W is not None and ((l == "true" and r == "Eq(%s, 0)" % W) or (l == "false" and r == "Ne(%s, 0)" % W)))
-    ctx.ob("forward", "floor:zero-write edge", len(zero) == 1, nontrivial=False, msg=str(sorted(zero)))
-    res = ret_exprs(f)
+        ctx.ob("forward", "consumed = written", W is not None and F.r(e[2][1]) == W and F.r(e[2][0]) == "std::pin::Pin::new($1)", s.loc(), "consume(%s)" % F.r(e[2][1])[-80:])
+        ok = P.must_pass(f, s.bb, e_nz)
+        ctx.ob("forward", "consume only after a successful non-empty write", ok, s.loc(), "consume is reachable only with i != 0 for i = the poll_write result" if ok else "consume reachable without `i != 0` (i = the poll_write result)")
+    ctx.ob("forward", "floor:zero-write edge", len(e_z) == 1, nontrivial=False, msg=str(sorted(e_z)))
     kinds = {}
-    for s, e in res:
-        r = render(e)
+    for s, e in P.ret_exprs(f):
+        r = F.r(e)
         if r == "std::task::Poll::Pending{}":
             k = "Pending"
         elif r == "std::task::Poll::Ready{0: std::result::Result::Ok{0: 0}}":
@@ -81,152 +95,189 @@ def _check(ctx, prog):
             k = "Ok(i)"
         elif r.startswith("std::task::Poll::Ready{0: std::result::Result::Err{"):
             k = "Err"
-        elif e[0] == "call" and strip_generics(e[1]).endswith("FromResidual>::from_residual"):
-            k = "Residual"
+        elif P.call_is(e, r"FromResidual>::from_residual$"):
+            k = "Err"                                     # `?` propagation of an error
         else:
             k = "?" + r[:60]
         kinds.setdefault(k, []).append((s, e))
-    ctx.ob("forward", "floor:result kinds", set(kinds) == {"Pending", "Ok(0)", "Ok(i)", "Err", "Residual"}, nontrivial=False, msg=str({k: len(v) for k, v in kinds.items()}))
+    ctx.ob("forward", "floor:result kinds", set(kinds) == {"Pending", "Ok(0)", "Ok(i)", "Err"}, nontrivial=False, msg=str({k: len(v) for k, v in kinds.items()}))
     for k, lst in sorted(kinds.items()):
         for s, e in lst:
             got = lib.count_range(f, [0], [s.bb], lib.bbs(cons))
             want = (1, 1) if k == "Ok(i)" else (0, 0)
             ctx.ob("forward", "%s: bytes are consumed iff they were forwarded" % k, got == want, s.loc(), "consume calls on paths to this result: %s (expected %s)" % (got, want))
     for s, e in kinds.get("Ok(i)", []):
-        r = render(e)
-        ctx.ob("forward", "the reported count is the written count", W is not None and r == "std::task::Poll::Ready{0: std::result::Result::Ok{0: std::result::Result::expect(<T as std::convert::TryInto>::try_into(%s), 'usize to fit into u64.')}}" % W, s.loc(), r[-120:])
-    for _, t in zero:
+        r = F.r(e)
+        ctx.ob("forward", "the reported count is the written count", W is not None and r in ("std::task::Poll::Ready{0: std::result::Result::Ok{0: <T as std::convert::TryInto>::try_into(%s)@+}}" % W,
+                                                                                           "std::task::Poll::Ready{0: std::result::Result::Ok{0: (%s as u64)}}" % W), s.loc(), r[-120:])
+    for t in P.targets(e_z):
         errs = [s.bb for s, e in kinds.get("Err", [])]
         got = lib.count_range(f, [t], frets, errs)
         ctx.ob("forward", "zero-length write is an error", got == (1, 1), "%s:%d" % (f.file, f.line), "Err results on the i == 0 edge: %s" % (got,))
+    eof = P.truth_edges(f, lambda e: F.r(e) == "core::slice::is_empty(%s)" % BUF, True)
     for s, e in kinds.get("Ok(0)", []):
-        ctx.guarded("forward", "Ok(0) only at end of stream", s, lambda c, r, l: l == "true" and r == "core::slice::is_empty(%s)" % FILL, "source buffer is empty (EOF)")
-        fl = [x for x in f.call_sites(r"AsyncWrite>::poll_flush$") if x.bb in f.reachable([t for _, t in f.guard_edges(lambda c, r, l: l == "true" and r == "core::slice::is_empty(%s)" % FILL)])]
-        cl = f.call_sites(r"AsyncWrite>::poll_close$")
+        ctx.ob("forward", "Ok(0) only at end of stream", P.must_pass(f, s.bb, eof), s.loc(), "Ok(0) only on the `buffer.is_empty()` edge")
+        fl = [x for x in f.call_sites(r"AsyncWrite>::poll_flush$|AsyncWrite::poll_flush$") if eof and x.bb in f.reachable(P.targets(eof))]
+        cl = f.call_sites(r"AsyncWrite>::poll_close$|AsyncWrite::poll_close$")
         ok = bool(fl) and bool(cl)
-        for x, nm in ((fl[0] if fl else None, "poll_flush"), (cl[0] if cl else None, "poll_close")):
-            if x is None:
-                ok = False
-                continue
-            edges = lib.switch_edges_on_site(f, x, {"Continue"}, r"^discr\(<std::result::Result as std::ops::Try>::branch\(")
-            ok = ok and bool(edges) and f.must_pass_edges(s.bb, edges)
+        for x in (fl[:1] + cl[:1]):
+            # the call returned Ready(Ok(..)): success edge of the Result inside the Ready payload
+            call = F.site(x)
+            edges = P.outcome_edges(f, lambda y: F.r(y) == call + "@Ready", True)
+            ok = ok and P.must_pass(f, s.bb, edges)
         ctx.ob("forward", "Ok(0) only after the destination was flushed and closed", ok, s.loc(), "poll_flush and poll_close both Ready(Ok) on every path to Ok(0)")
-    # ================================================================= CopyFuture::poll
+    # ================================================================= CopyFuture::poll(self, cx = $2)
     p = ctx.body(RL, r"^libp2p_relay::<copy_future::CopyFuture as futures::Future>::poll$")
+    N = P.Norm(p)
     prets = p.return_blocks()
+    res = P.ret_exprs(p)
+    SENT, MAXB = "%." + F_SENT, "%." + F_MAX
     fw = p.call_sites(r"^libp2p_relay::copy_future::forward_data$")
     ctx.floor("poll", "forward_data calls", fw, 2, exact=True)
-    dirs = sorted(render(p.site_expr(s))[len("libp2p_relay::copy_future::forward_data("):] for s in fw)
-    ctx.ob("poll", "both directions are connected", dirs == ["this.dst, this.src, cx)", "this.src, this.dst, cx)"], fw[0].loc() if fw else "", str(dirs))
-    bw = p.field_write_sites("bytes_sent")
-    ctx.floor("poll", "bytes_sent updates", bw, 2, exact=True)
-    LIMIT = lambda c, r, l: r in ("Gt(this.bytes_sent, this.max_circuit_bytes)", "Ge(this.bytes_sent, this.max_circuit_bytes)",
-                                  "Lt(this.max_circuit_bytes, this.bytes_sent)", "Le(this.max_circuit_bytes, this.bytes_sent)")
-    tests = [bi for bi in p.live if p.switch_info(bi) and LIMIT(None, render(p.switch_info(bi)[0]), None)]
+    FWD = "libp2p_relay::copy_future::forward_data(%%.%s, %%.%s, $2)"
+    want_dirs = {FWD % (F_SRC, F_DST): "src->dst", FWD % (F_DST, F_SRC): "dst->src"}
+    dirs = sorted(N.site(s) for s in fw)
+    ctx.ob("poll", "both directions are connected", dirs == sorted(want_dirs), fw[0].loc() if fw else "", str(dirs))
+    bw = p.field_write_sites(F_SENT)
+    ctx.floor("poll", "bytes_sent updates", bw, 2)
+
+    def over(op, a, b):       # max < sent
+        return op == "Lt" and N.r(a) == MAXB and N.r(b) == SENT
+
+    def over_or_at(op, a, b):
+        return op in ("Lt", "Le") and N.r(a) == MAXB and N.r(b) == SENT
+    tests = sorted({bi for bi, _ in P.rel_edges(p, over_or_at)})
     ctx.ob("poll", "floor:limit test", len(tests) == 1, nontrivial=False, msg=str(tests))
+    enabled = P.rel_edges(p, lambda op, a, b: (op == "Lt" and N.r(a) == "0" and N.r(b) == MAXB) or (op == "Ne" and {N.r(a), N.r(b)} == {"0", MAXB}))
+    unlimited = P.rel_edges(p, lambda op, a, b: (op == "Le" and N.r(a) == MAXB and N.r(b) == "0") or (op == "Eq" and {N.r(a), N.r(b)} == {"0", MAXB}))
     for s in fw:
-        call = render(p.site_expr(s))
-        d = "src->dst" if "forward_data(this.src, this.dst" in call else "dst->src"
-        nz = p.guard_edges(lambda c, r, l: r == call + "@Ready.0@Ok.0" and l == "otherwise")
+        call = N.site(s)
+        d = want_dirs.get(call, "?")
+        CNT = call + "@+@Ready"
+        nz = set()
+        for bi in p.live:
+            info = p.switch_info(bi)
+            if info and N.r(info[0]) == CNT:
+                for tg, ls in info[1].items():
+                    if ls == {"otherwise"}:
+                        nz.add((bi, tg))
+        nz |= P.rel_edges(p, lambda op, a, b: op == "Ne" and {N.r(a), N.r(b)} == {"0", CNT})
         ctx.ob("poll", "floor:%s progress edge" % d, len(nz) == 1, nontrivial=False, msg=str(sorted(nz)))
-        mine = [w for w in bw if render(p.site_expr(w)) == "AddWithOverflow(this.bytes_sent, %s@Ready.0@Ok.0).0" % call]
+        mine = [w for w in bw if N.site(w) in ("AddWithOverflow(%s, %s).0" % (SENT, CNT), "AddWithOverflow(%s, %s).0" % (CNT, SENT), "core::num::saturating_add(%s, %s)" % (SENT, CNT))]
         nxt = [x.bb for x in fw if x is not s] + tests
-        for _, t in nz:
+        for t in P.targets(nz):
             got = lib.count_range(p, [t], nxt + prets, lib.bbs(mine))
             ctx.ob("poll", "%s: bytes_sent += forwarded" % d, got == (1, 1), mine[0].loc() if mine else s.loc(), "updates of bytes_sent by this direction's count after Ready(Ok(i != 0)): %s (expected (1, 1))" % (got,))
         for w in mine:
-            ok = bool(nz) and p.must_pass_edges(w.bb, nz)
+            ok = P.must_pass(p, w.bb, nz)
             ctx.ob("poll", "%s: bytes_sent grows only by forwarded bytes" % d, ok, w.loc(), "the update is reachable only through Ready(Ok(i)) with i != 0")
-        # errors propagate
-        er = [(rs, e) for rs, e in ret_exprs(p) if render(e) == "std::task::Poll::Ready{0: std::result::Result::Err{0: %s@Ready.0@Err.0}}" % call]
-        ee = p.guard_edges(lambda c, r, l: r == "discr(%s@Ready.0)" % call and l == "Err")
-        got = lib.count_range(p, [t for _, t in ee], prets, [rs.bb for rs, _ in er]) if ee else None
-        reach = any(x.bb in p.reachable([t for _, t in ee]) for x in fw) if ee else True
+        er = [(rs, e) for rs, e in res if N.r(e) == "std::task::Poll::Ready{0: std::result::Result::Err{0: %s@Err@Ready}}" % call]
+        ee = P.outcome_edges(p, lambda y: N.r(y) == call + "@Ready", False)
+        got = lib.count_range(p, P.targets(ee), prets, [rs.bb for rs, _ in er]) if ee else None
+        reach = any(x.bb in p.reachable(P.targets(ee)) for x in fw) if ee else True
         ctx.ob("poll", "%s: an I/O error ends the circuit with that error" % d, got == (1, 1) and not reach, s.loc(), "Err(e) returned on the Err edge: %s; forwarding continues: %s" % (got, reach))
-    unlimited = p.guard_edges(lambda c, r, l: l == "false" and r in ("Gt(this.max_circuit_bytes, 0)", "Ne(this.max_circuit_bytes, 0)"))
     for w in bw:
-        # paths on which the limit is enabled: the `max_circuit_bytes == 0` edge is not taken
         r = p.reachable(p.succ[w.bb], blocked_nodes=tests, blocked_edges=unlimited)
-        hit = [x for x in fw if x.bb in r and not (x.bb == w.bb)]
-        # the other direction of the same iteration may still run (one buffer per direction); a *second* call of the same direction must not
-        same = [x for x in hit if render(p.site_expr(x)) in render(p.site_expr(w))]
+        wtxt = N.site(w)
+        same = [x for x in fw if x.bb in r and x.bb != w.bb and N.site(x) in wtxt]
         ctx.ob("poll", "limit re-tested before forwarding more", bool(tests) and not same, w.loc(),
                "no path from this update back to the same direction's forward_data avoids the limit test" if not same else "the same direction can forward again without passing the limit test")
     for bi in tests:
-        cond, labs = p.switch_info(bi)
-        over = [tg for tg, ls in labs.items() if ls == {"true"}]
-        errs = [s.bb for s, e in ret_exprs(p) if render(e).startswith("std::task::Poll::Ready{0: std::result::Result::Err{0: std::io::Error::other(")]
-        got = lib.count_range(p, over, prets, errs) if over else None
-        fwd = [x for x in fw if over and x.bb in p.reachable(over)]
-        ctx.ob("poll", "over the byte limit: error, nothing more is forwarded", got == (1, 1) and not fwd, "%s:%d" % (p.file, p.blocks[bi]["term"].get("l", 0)), "Err results on the over-limit edge: %s, forward_data reachable: %d" % (got, len(fwd)))
-        ok = ctx.guarded("poll", "the byte limit applies whenever it is non-zero", mir.Site(p, bi), lambda c, r, l: l == "true" and r in ("Gt(this.max_circuit_bytes, 0)", "Ne(this.max_circuit_bytes, 0)"), "max_circuit_bytes > 0")
-        z = p.guard_edges(lambda c, r, l: l == "false" and r in ("Gt(this.max_circuit_bytes, 0)", "Ne(this.max_circuit_bytes, 0)"))
-        # with the limit enabled the test cannot be skipped: the only edge around it is the `== 0` edge
+        ov = P.targets({(b_, t_) for b_, t_ in P.rel_edges(p, over_or_at) if b_ == bi})
+        errs = [s.bb for s, e in res if N.r(e).startswith("std::task::Poll::Ready{0: std::result::Result::Err{0: ") and "forward_data(" not in N.r(e) and "TimedOut" not in N.r(e)]
+        got = lib.count_range(p, ov, prets, errs) if ov else None
+        fwd = [x for x in fw if ov and x.bb in p.reachable(ov)]
+        where = "%s:%d" % (p.file, p.blocks[bi]["term"].get("l", 0))
+        ctx.ob("poll", "over the byte limit: error, nothing more is forwarded", got == (1, 1) and not fwd, where, "Err results on the over-limit edge: %s, forward_data reachable: %d" % (got, len(fwd)))
+        ctx.ob("poll", "the byte limit applies whenever it is non-zero", P.must_pass(p, bi, enabled) or not unlimited, where, "the limit test is skipped only on the `max_circuit_bytes == 0` edge")
         first = fw[0].bb if fw else None
-        ok2 = first is not None and first not in p.reachable([0], blocked_nodes=[bi], blocked_edges=z)
+        ok2 = first is not None and first not in p.reachable_bool([0], blocked_nodes=[bi], blocked_edges=unlimited)
         ctx.ob("poll", "the limit test guards the loop head", ok2, msg="every path from entry to the first forward_data passes the test or the `max_circuit_bytes == 0` edge")
-    # Ok only when both done
-    oks = [(s, e) for s, e in ret_exprs(p) if render(e) == "std::task::Poll::Ready{0: std::result::Result::Ok{0: tuple{}}}"]
-    ctx.floor("poll", "Ready(Ok(())) result", oks, 1, exact=True)
-    for s, e in oks:
-        both = True
-        for nm in ("src_status", "dst_status"):
-            edges = p.guard_edges(lambda c, r, l, nm=nm: r == "discr(%s)" % nm and l == "Done")
-            both = both and bool(edges) and p.must_pass_edges(s.bb, edges)
-        ctx.ob("poll", "Ok only when both directions are done", both, s.loc(), "Ready(Ok(())) is dominated by src_status == Done and dst_status == Done")
-    for nm, call in (("src_status", "libp2p_relay::copy_future::forward_data(this.src, this.dst, cx)"), ("dst_status", "libp2p_relay::copy_future::forward_data(this.dst, this.src, cx)")):
-        l = lib.local_by_name(p, nm)
+    # per-direction status locals: multi-def locals whose definitions are all variants of the local `Status` enum
+    status = {}
+    for l, ds in p.defs.items():
+        if not isinstance(l, int) or len(ds) < 2:
+            continue
+        es = [p.site_expr(mir.Site(p, d[1], d[2])) for d in ds if d[0] == "stmt"]
+        if len(es) == len(ds) and all(e[0] == "agg" and e[1] == "adt" and strip_generics(e[2]).endswith("::poll::Status") for e in es):
+            status[l] = ds
+    ctx.ob("poll", "floor:status locals", len(status) == 2, nontrivial=False, msg=str(sorted(status)))
+    seen_dirs = set()
+    for l, ds in status.items():
         tab = {}
-        for d in p.defs.get(l, []):
+        which = None
+        for d in ds:
             s = mir.Site(p, d[1], d[2])
-            v = (p.site_expr(s)[3] if p.site_expr(s)[0] == "agg" else "?")
+            v = p.site_expr(s)[3]
             g = {}
             for text, labels, _, c in p.guards_on_all_paths(s.bb):
-                if text == "discr(%s)" % call:
-                    g["poll"] = tuple(sorted(labels))
-                elif text == "discr(%s@Ready.0)" % call:
-                    g["res"] = tuple(sorted(labels))
-                elif text == "%s@Ready.0@Ok.0" % call:
-                    g["n"] = tuple(sorted(map(str, labels)))
+                rc = N.r(c)
+                for call, dname in want_dirs.items():
+                    if rc == "discr(%s)" % call:
+                        g["poll"], which = tuple(sorted(labels)), dname
+                    elif rc == "discr(%s@Ready)" % call:
+                        g["res"] = tuple(sorted(labels))
+                    elif rc == "%s@+@Ready" % call:
+                        g["n"] = tuple(sorted(map(str, labels)))
             tab[v] = g
+        seen_dirs.add(which)
         want = {"Pending": {"poll": ("Pending",)}, "Done": {"poll": ("Ready",), "res": ("Ok",), "n": ("0",)}, "Progressed": {"poll": ("Ready",), "res": ("Ok",), "n": ("otherwise",)}}
-        ctx.ob("poll", "%s reflects the direction's forward_data result" % nm, tab == want, msg=str(tab))
+        ctx.ob("poll", "%s status reflects the direction's forward_data result" % which, tab == want, msg=str(tab))
+    ctx.ob("poll", "floor:one status per direction", seen_dirs == {"src->dst", "dst->src"}, nontrivial=False, msg=str(sorted(map(str, seen_dirs))))
+    oks = [(s, e) for s, e in res if N.r(e) == "std::task::Poll::Ready{0: std::result::Result::Ok{0: tuple{}}}"]
+    ctx.floor("poll", "Ready(Ok(())) result", oks, 1)
+    for s, e in oks:
+        both = len(status) == 2
+        for l in status:
+            edges = P.variant_edges(p, lambda y, l=l: y[0] == "local" and y[1] == l, {"Done"})
+            both = both and P.must_pass(p, s.bb, edges)
+        ctx.ob("poll", "Ok only when both directions are done", both, s.loc(), "Ready(Ok(())) is dominated by status == Done for both directions")
     # timer
-    tm = [s for s in p.call_sites(r"FutureExt::poll_unpin$") if render(p.site_expr(s)[2][0]) == "this.max_circuit_duration"]
+    tm = [s for s in p.call_sites(r"poll_unpin$|Future>::poll$|Future::poll$") if N.r(p.site_expr(s)[2][0]) in ("%." + F_TIMER, "std::pin::Pin::new(%%.%s)" % F_TIMER)]
     ctx.floor("poll", "timer poll", tm, 1, exact=True)
-    pend = [(s, e) for s, e in ret_exprs(p) if render(e) == "std::task::Poll::Pending{}"]
+    pend = [(s, e) for s, e in res if N.r(e) == "std::task::Poll::Pending{}"]
     ctx.floor("poll", "Pending result", pend, 1)
     for t in tm:
-        pe = lib.switch_edges_on_site(p, t, {"Pending"})
-        re_ = lib.switch_edges_on_site(p, t, {"Ready"})
+        pe = P.variant_edges(p, P.is_call_at(t), {"Pending"})
+        re_ = P.variant_edges(p, P.is_call_at(t), {"Ready"})
         for s, e in pend:
-            ctx.ob("poll", "timer polled before every Pending", bool(pe) and p.must_pass_edges(s.bb, pe), s.loc(), "Poll::Pending only on the Pending edge of max_circuit_duration.poll_unpin(cx)")
-        to = [s.bb for s, e in ret_exprs(p) if "std::io::ErrorKind::TimedOut{}" in render(e) and render(e).startswith("std::task::Poll::Ready{0: std::result::Result::Err{")]
-        got = lib.count_range(p, [x for _, x in re_], prets, to) if re_ else None
+            ctx.ob("poll", "timer polled before every Pending", P.must_pass(p, s.bb, pe), s.loc(), "Poll::Pending only on the Pending edge of the duration timer's poll")
+        to = [s.bb for s, e in res if "std::io::ErrorKind::TimedOut{}" in N.r(e) and N.r(e).startswith("std::task::Poll::Ready{0: std::result::Result::Err{")]
+        got = lib.count_range(p, P.targets(re_), prets, to) if re_ else None
         ctx.ob("poll", "a fired timer ends the circuit with TimedOut", got == (1, 1), t.loc(), "Err(TimedOut) on the Ready edge: %s" % (got,))
-    # ================================================================= construction and configuration
-    n = ctx.body(RL, r"^libp2p_relay::copy_future::CopyFuture::new$")
-    ag = [render(e) for _, e in ret_exprs(n)]
-    ok = len(ag) == 1 and "max_circuit_duration: futures_timer::Delay::new(max_circuit_duration), max_circuit_bytes: max_circuit_bytes, bytes_sent: <u64 as std::default::Default>::default()}" in ag[0] and \
-        "src: futures::io::BufReader::new(src), dst: futures::io::BufReader::new(dst)" in ag[0]
-    ctx.ob("config", "CopyFuture::new arms the timer with max_circuit_duration and starts at 0 bytes", ok, "%s:%d" % (n.file, n.line), ag[0][-200:] if ag else "")
+    # ================================================================= configuration
+    hn = prog.callers(RL, r"^libp2p_relay::behaviour::handler::Handler::new$")
+    ctx.floor("config", "Handler::new call sites", hn, 1)
+    HF = {}
+    for s in hn:
+        B = P.Norm(s.body)
+        cfg = [x for x in mir.walk(s.body.site_expr(s)) if x[0] == "agg" and x[1] == "adt" and strip_generics(x[2]) == "libp2p_relay::behaviour::handler::Config"]
+        got = {}
+        for c in cfg[:1]:
+            for fld, x in c[4]:
+                m = re.match(r"^self\.[A-Za-z_0-9]+\.(max_circuit_duration|max_circuit_bytes)$", B.r(x))
+                if m:
+                    got[m.group(1)] = fld
+        ctx.ob("config", "the handler's Config carries the behaviour's circuit limits", set(got) == {"max_circuit_duration", "max_circuit_bytes"}, s.loc(), str(got))
+        HF = HF or got
     callers = prog.callers(RL, r"^libp2p_relay::copy_future::CopyFuture::new$")
     ctx.floor("config", "CopyFuture::new call sites", callers, 1)
     for s in callers:
-        a = [render(x) for x in s.body.site_expr(s)[2]]
-        ctx.ob("config", "the circuit is driven with the configured limits", a[2:] == ["^max_circuit_duration", "^max_circuit_bytes"], s.loc(), str(a[2:]))
-        par = prog.body(RL, "^" + re.escape(strip_generics(s.body.parent)) + "$") if s.body.parent else None
-        ok = False
-        txt = ""
-        if par is not None:
+        cb = s.body
+        C = P.Norm(cb)
+        a = cb.site_expr(s)[2]
+        par, caps = P.capture_exprs(prog, cb)
+        txt = []
+        ok = par is not None and len(a) == 4
+        if ok:
             ctx.use(par)
-            for nm in ("max_circuit_duration", "max_circuit_bytes"):
-                ls = [l for l, v in par.names.items() if v == nm]
-                txt += " ".join(render(par.init_expr(l)) for l in ls) + "; "
-            ok = "self.config.max_circuit_duration" in txt and "self.config.max_circuit_bytes" in txt
-        ctx.ob("config", "the limits come from the handler's Config", ok, s.loc(), txt)
-    hn = prog.callers(RL, r"^libp2p_relay::behaviour::handler::Handler::new$")
-    ctx.floor("config", "Handler::new call sites", hn, 1)
-    for s in hn:
-        r = render(s.body.site_expr(s))
-        ctx.ob("config", "the handler's Config carries the behaviour's circuit limits", "max_circuit_duration: self.config.max_circuit_duration" in r and "max_circuit_bytes: self.config.max_circuit_bytes" in r, s.loc(), r[:260])
+            PN = P.Norm(par)
+            for x, role in ((a[2], "max_circuit_duration"), (a[3], "max_circuit_bytes")):
+                src = None
+                if x[0] == "upvar":
+                    r = C.r(x)
+                    i = int(r[1:]) if r[1:].isdigit() else None
+                    src = PN.r(caps[i]) if i is not None and i < len(caps) else None
+                txt.append(src)
+                ok = ok and src is not None and re.match(r"^self\.[A-Za-z_0-9]+\.%s$" % re.escape(HF.get(role, "?")), src) is not None
+        ctx.ob("config", "the circuit is driven with the handler Config's limits", ok, s.loc(), str(txt))
